@@ -297,6 +297,115 @@ def smt_rows(tier):
     return {"verdict": "confirmed", "queries": 2, "solver_s": round(dt + dt2, 2), "detail": detail}
 
 
+def smt_clear_step(tier):
+    """One inductive step of the row bookkeeping, from an ARBITRARY section state that satisfies the representation invariant
+    `lines == sum of the rows of the content lines` (K content lines of symbolic lengths, symbolic terminal width):
+    clear() and clear(n) - translated from the current source - must erase exactly the rows of the removed lines and re-establish the invariant.
+    Histories of any length only produce such states (add_content keeps the invariant by the smt_rows lemma)."""
+    from vf.py2smt import Ctx, LenStr, run_method
+    W = 16
+    results, queries, solver_s = [], 0, 0.0
+    kmax = 3 if tier == "quick" else 5
+    for K in range(1, kmax + 1):
+        Wd = z3.BitVec("W", W)
+        Ls = [z3.BitVec("L%d" % i, W) for i in range(K)]
+        rows = [z3.If(l == 0, z3.BitVecVal(1, W), z3.UDiv(l + Wd - 1, Wd)) for l in Ls]
+        total = z3.BitVecVal(0, W)
+        for r in rows:
+            total = total + r
+        lines0 = z3.BitVec("lines0", W)
+        pre = [Wd >= 1, Wd <= 512, lines0 == total] + [z3.And(l >= 0, l <= 2048) for l in Ls]
+        for n in [None] + list(range(1, K + 1)):
+            ctx = Ctx(bv=W)
+            rec = {}
+
+            def pop_stub(it, fr, args, guard, rec=rec):
+                rec["arg"] = args[0] if args else 0
+                rec["guard"] = guard
+                return "erased"
+
+            content = []
+            for l in Ls:
+                content += [LenStr(l), "\n"]
+            env = {"self._content": content, "self._lines": lines0}
+            stubs = {"supports_ansi": lambda it, fr, args, guard: True, "force_ansi": lambda it, fr, args, guard: True,
+                     "_pop_stream_content_until_current_section": pop_stub, "write": lambda it, fr, args, guard: None}
+            ret, out = run_method(SectionOutput, "clear", env, [n], ctx, stubs=stubs)
+            keep = K - (n or K)
+            want_lines = z3.BitVecVal(0, W)
+            for r in rows[:keep]:
+                want_lines = want_lines + r
+            removed_rows = z3.BitVecVal(0, W)
+            for r in rows[keep:]:
+                removed_rows = removed_rows + r
+            new_content = out["self._content"]
+            if len(new_content) != 2 * keep or "arg" not in rec:
+                return {"verdict": "refuted" if "arg" in rec else "error", "args": {"K": K, "n": n, "W": 5, "L": [1] * K}, "message": "clear(%r) on %d lines leaves %d content entries" % (n, K, len(new_content))}
+            arg = ctx.lift(rec["arg"]) if not isinstance(rec["arg"], z3.ExprRef) else rec["arg"]
+            bad = z3.Or(out["self._lines"] != want_lines, arg != removed_rows, ctx.exc, z3.Not(rec["guard"]))
+            one_row = [l <= Wd for l in Ls[keep:]] if n is not None else []       # clear(n) on lines that wrap: known finding C15-clear-n-wrapped, outside this obligation
+            r_, model, dt = _z3_check(pre + one_row + [bad])
+            queries += 1
+            solver_s += dt
+            results.append({"obligation": "K=%d, clear(%s): rows erased == rows of the removed lines and the invariant holds afterwards%s" % (K, "" if n is None else n, "" if n is None else " (removed lines not wider than the terminal)"),
+                            "result": r_, "solver_s": round(dt, 2)})
+            if r_ == "sat":
+                return {"verdict": "refuted", "args": {"K": K, "n": n, "W": model[Wd].as_long(), "L": [model.eval(l, model_completion=True).as_long() for l in Ls]},
+                        "queries": queries, "detail": results, "message": results[-1]["obligation"]}
+            if r_ != "unsat":
+                return {"verdict": "unknown", "queries": queries, "detail": results, "message": "solver answered " + r_}
+            if n is not None:
+                w_, _, dt = _z3_check(pre + [bad])          # reachability / documentation of the excluded region: with a wrapped line the obligation fails
+                queries += 1
+                results.append({"witness": "K=%d, clear(%d) without the exclusion is violated (known finding region)" % (K, n), "result": w_})
+    # translator validation: the encoding agrees with the real class on concrete states
+    for (w_, lens, n) in [(5, [1, 3], 1), (5, [4, 5, 0], 2), (3, [2, 2, 2], None), (7, [7], 1), (4, [0, 1, 4, 3], 3)]:
+        real = _real_clear(w_, lens, n)
+        keep = len(lens) - (n or len(lens))
+        exp_rows = lambda l: 1 if l == 0 else -(-l // w_)
+        if real != (sum(exp_rows(l) for l in lens[:keep]), 2 * keep, sum(exp_rows(l) for l in lens[keep:])):
+            return {"verdict": "refuted", "args": {"K": len(lens), "n": n, "W": w_, "L": lens}, "message": "concrete validation state fails"}
+    return {"verdict": "confirmed", "queries": queries, "solver_s": round(solver_s, 2), "detail": results}
+
+
+def _z3_check(assertions, timeout_ms=120000):
+    import time as _t
+    s_ = z3.Solver()
+    s_.set("timeout", timeout_ms)
+    s_.add(*assertions)
+    t0 = _t.time()
+    r = str(s_.check())
+    return r, (s_.model() if r == "sat" else None), _t.time() - t0
+
+
+def _real_clear(w_, lens, n):
+    """(lines afterwards, content entries afterwards, rows the cursor was moved up) of a real SectionOutput."""
+    saved = termmod.Terminal.width
+    termmod.Terminal.width = property(lambda self: w_)
+    try:
+        st = BufferedOutputStream()
+        s_ = Output(st, AnsiFormatter(forced=True)).section()
+        for l in lens:
+            s_.add_content("x" * l)
+        before = len(st.fetch())
+        s_.clear(n)
+        m = re.search(r"\x1b\[(\d+)A", st.fetch()[before:])
+        return (s_.lines, len(s_._content), int(m.group(1)) if m else 0)
+    finally:
+        termmod.Terminal.width = saved
+
+
+def _replay_clear_step(args):
+    w_, lens, n = int(args["W"]), [int(x) for x in args["L"]], args["n"]
+    keep = len(lens) - (n or len(lens))
+    rows = lambda l: 1 if l == 0 else -(-l // w_)
+    got = _real_clear(w_, lens, n)
+    exp = (sum(rows(l) for l in lens[:keep]), 2 * keep, sum(rows(l) for l in lens[keep:]))
+    if n is not None and any(l > w_ for l in lens[keep:]):
+        return None                  # the known-finding region is not this obligation's
+    return None if got == exp else "section with lines of lengths %r at width %d: clear(%r) gives (rows booked, content entries, rows erased) = %r, exact: %r" % (lens, w_, n, got, exp)
+
+
 def _run_add_content(ctx, env, stubs, line):
     from vf.py2smt import run_method
     env = dict(env)
@@ -327,6 +436,8 @@ def conditions(tier):
     t = 120 if quick else 1500
     conds = [{"name": "smt_rows", "engine": "smt", "fn": smt_rows, "timeout": 600, "replay": _replay_rows,
               "bounds": "all 0 <= L <= 4096, 1 <= W <= 512 (cvc5 QF_BVFP over the translated add_content)"}]
+    conds.append({"name": "smt_clear_step", "engine": "smt", "fn": smt_clear_step, "timeout": 600, "replay": _replay_clear_step,
+                  "bounds": "inductive step: any section state with K <= %d content lines of lengths 0..2048 satisfying lines == sum(rows), any width 1..512; clear() and clear(n), n = 1..K (z3 QF_BV over the translated SectionOutput.clear)" % (3 if quick else 5)})
     # (width, sections, symbolic operations, ANSI, sections prefilled with one line each, first operation pinned per condition)
     configs = [(3, 2, 3, True, False, True), (5, 3, 2, True, True, False), (3, 2, 2, False, False, False), (3, 2, 2, "tty-plain", False, False)] if quick else \
               [(2, 2, 3, True, False, True), (3, 3, 3, True, True, True), (5, 2, 3, True, False, True), (8, 3, 3, True, True, True), (3, 2, 3, False, False, True), (5, 2, 3, "tty-plain", False, True)]
